@@ -464,7 +464,7 @@ theorem len_run (ops : List Op) (d : Doc) (h : LenInv d) (hg : lenGuards ops) (d
     · cases hr
     · cases hr
 
-example : LenOK (.stream [(LENGTHE, .int 3)] [1, 2, 3]) := by simp [LenOK, Dict.get]
+example : LenOK (.stream [(LENGTHE, .int 3)] [1, 2, 3]) := by simp [LenOK, Dict.get, DictL.NoDup]
 
 /-- **frame of `Document::compress` / `Document::decompress`**: trailer, `max_id` and the key set are
 untouched; every object that is not a stream is returned as it was; a stream is replaced by its
